@@ -131,6 +131,14 @@ def run(cx):
         "explicit-tick-under-if": (head + "lcd.animate('bounce', 0, 'hi', speed_ms=0)\nwhile True:\n    if x > 2:\n        lcd.tick()\n    x = x + 1\n", {"lcd": 1}),
         "animate-inside-the-loop": (head + "while True:\n    if x > 2:\n        lcd.animate('scroll', 0, 'late', speed_ms=0)\n        lcd.animate('blink', 1, 'later', speed_ms=0)\n    x = x + 1\n", {"lcd": 1}),
         "two-displays": (head + "lcd.animate('scroll', 0, 'a', speed_ms=0)\nlcd2.animate('typewriter', 1, 'b', speed_ms=0)\nlcd.animate('blink', 1, 'c', speed_ms=0)\nwhile True:\n    lcd2.tick()\n    sleep(1)\n", {"lcd": 1, "lcd2": 1}),
+        "animate-in-else": (head + "while True:\n    if x > 2:\n        x = 0\n    else:\n        lcd.animate('scroll', 0, 'late', speed_ms=0)\n    x = x + 1\n", {"lcd": 1}),
+        "animate-in-elif": (head + "while True:\n    if x > 2:\n        x = 0\n    elif x > 1:\n        lcd.animate('blink', 0, 'late', speed_ms=0)\n    x = x + 1\n", {"lcd": 1}),
+        "two-displays-chosen-by-if-else": (head + "while True:\n    if x > 2:\n        lcd.animate('scroll', 0, 'a', speed_ms=0)\n    else:\n        lcd2.animate('bounce', 0, 'b', speed_ms=0)\n    x = x + 1\n", {"lcd": 1, "lcd2": 1}),
+        "animate-in-nested-else": (head + "while True:\n    if x > 2:\n        if x > 5:\n            x = 0\n        else:\n            lcd2.animate('typewriter', 1, 'deep', speed_ms=0)\n    x = x + 1\n", {"lcd2": 1}),
+        "animate-in-else-before-the-loop": (head + "if x > 2:\n    x = 0\nelse:\n    lcd.animate('scroll', 0, 'boot', speed_ms=0)\nwhile True:\n    x = x + 1\n", {"lcd": 1}),
+        "animate-in-for-body": (head + "while True:\n    for i in range(2):\n        lcd.animate('scroll', 0, 'again', speed_ms=0)\n    x = x + 1\n", {"lcd": 1}),
+        "animate-in-while-body": (head + "while True:\n    while x < 2:\n        lcd2.animate('blink', 0, 'again', speed_ms=0)\n        x = x + 1\n    x = 0\n", {"lcd2": 1}),
+        "animate-in-try-and-handler": (head + "while True:\n    try:\n        lcd.animate('scroll', 0, 'try', speed_ms=0)\n    except Exception:\n        lcd2.animate('blink', 0, 'oops', speed_ms=0)\n    x = x + 1\n", {"lcd": 1, "lcd2": 1}),
         "animation-and-buttons": ("from Reduino.Sensors import Button\n" + head + "b1 = Button(7)\nb2 = Button(8)\nlcd.animate('scroll', 0, 'a', speed_ms=0)\nlcd2.animate('blink', 1, 'b', speed_ms=0)\nwhile True:\n    if b1.is_pressed():\n        x = x + 1\n    if b2.is_pressed():\n        x = 0\n", {"lcd": 1, "lcd2": 1}),
     }
 
